@@ -211,7 +211,7 @@ static void ecpDblJ(word b[], const word a[], const ec_o* ec, void* stack)
 	// za == 0 или ya == 0? => b <- O
 	if (qrIsZero(ecZ(a, n), ec->f) || qrIsZero(ecY(a, n), ec->f))
 	{
-		qrSetZero(ecZ(b, n), ec->f);
+		ecSetO(b, ec);
 		return;
 	}
 	// t1 <- za^2
@@ -276,7 +276,7 @@ static void ecpDblJA3(word b[], const word a[], const ec_o* ec, void* stack)
 	// za == 0 или ya == 0? => b <- O
 	if (qrIsZero(ecZ(a, n), ec->f) || qrIsZero(ecY(a, n), ec->f))
 	{
-		qrSetZero(ecZ(b, n), ec->f);
+		ecSetO(b, ec);
 		return;
 	}
 	// t1 <- za^2
@@ -341,7 +341,7 @@ static void ecpDblAJ(word b[], const word a[], const ec_o* ec, void* stack)
 	// ya == 0? => b <- O
 	if (qrIsZero(ecY(a, n), ec->f))
 	{
-		qrSetZero(ecZ(b, n), ec->f);
+		ecSetO(b, ec);
 		return;
 	}
 	// t1 <- xa^2 [X1^2 = XX]
@@ -456,7 +456,7 @@ static void ecpAddJ(word c[], const word a[], const word b[], const ec_o* ec,
 			ecpDblJ(c, c == a ? b : a, ec, stack);
 		// t3 != t4 => a == -b => c <- O
 		else
-			qrSetZero(ecZ(c, n), ec->f);
+			ecSetO(c, ec);
 		return;
 	}
 	// zc <- zc t1 [((Z1 + Z2)^2 - Z1Z1 - Z2Z2)H = Z3]
@@ -546,7 +546,7 @@ static void ecpAddAJ(word c[], const word a[], const word b[], const ec_o* ec,
 			ecpDblAJ(c, b, ec, stack);
 		// t2 != 0 => c <- O
 		else
-			qrSetZero(ecZ(c, n), ec->f);
+			ecSetO(c, ec);
 		return;
 	}
 	// zc <- t1 za
